@@ -404,8 +404,8 @@ func TestVerifC10SNI(t *testing.T) {
 	}
 	// clientHelloBufferSize on every record length x boundary handshake lengths x type bytes
 	for rl := 0; rl < 65536; rl++ {
-		for _, hl := range []int{0, 1, rl - 5, rl - 4, rl - 3, rl, 0xffffff} {
-			if hl < 0 {
+		for _, hl := range []int{0, 1, rl - 5, rl - 4, rl - 3, rl, 0xffffff, 0x010000 | ((rl - 4) & 0xffff), 0x800000 | ((rl - 4) & 0xffff), 0x010000} {
+			if hl < 0 || (rl < 4 && hl > 0xffff) {
 				continue
 			}
 			for _, typ := range [][2]byte{{0x16, 1}, {0x17, 1}, {0x16, 2}} {
@@ -420,10 +420,15 @@ func TestVerifC10SNI(t *testing.T) {
 				if err == nil && (n > 5+rl || n > 5+16384 || n < 9) {
 					L.Violation("buffers-beyond-first-record", map[string]interface{}{"header": fmt.Sprintf("%x", hdr), "size": n})
 				}
+				// a handshake message that claims to be longer than what is left of the first record continues in a
+				// later record: the TLS stack does not see a name in these bytes, so routing must not either
+				if err == nil && hl+4 > rl {
+					L.Violation("hello-longer-than-its-first-record-accepted", map[string]interface{}{"header": fmt.Sprintf("%x", hdr), "record_length": rl, "handshake_length": hl, "size": n})
+				}
 			}
 		}
 	}
-	L.AddCases(65536 * 7 * 3)
+	L.AddCases(65536 * 10 * 3)
 	// truncations
 	var tjobs [][2]int
 	for hi, h := range corpus {
